@@ -25,6 +25,7 @@ import (
 	"sort"
 	"strconv"
 	"strings"
+	"sync"
 	"time"
 
 	. "verifharness/hlib"
@@ -210,6 +211,7 @@ func renderPkt(p *rtp.Packet) string {
 // the Request-URI net/url refused in the last call (the model's net/url table must hold it:
 // the driver only asks for a URI when the message around it is otherwise accepted)
 var lastBadURL string
+var lastBadURLMu sync.Mutex // readers also run concurrently (rconc)
 
 func errKind(err error) string {
 	if err == nil {
@@ -222,7 +224,9 @@ func errKind(err error) string {
 		return "ueof"
 	}
 	if ue, ok := err.(*url.Error); ok {
+		lastBadURLMu.Lock()
 		lastBadURL = ue.URL
+		lastBadURLMu.Unlock()
 		return "url-parse"
 	}
 	m := err.Error()
